@@ -33,7 +33,8 @@ def gen_cases(rng, tier: str) -> list[dict]:
             c["persist"] = rng.random() < 0.4      # one derivative object asked again after other work
             cases.append(c)
     for origin, pairs in (("near-special", common.near_special(rng, common.sizes(tier, 200, 2000))),
-                          ("compensating-magnitudes", common.compensating_products(rng, common.sizes(tier, 150, 1500)))):
+                          ("compensating-magnitudes", common.compensating_products(rng, common.sizes(tier, 150, 1500))),
+                          ("vanishing-factor", common.vanishing_products(rng, common.sizes(tier, 150, 1500)))):
         for e, pt in pairs:
             c = common.make_eval_case(origin, e, pt)
             vs = common.names_of(e)
